@@ -225,7 +225,8 @@ class Check(core.PropertyCheck):
         return {}
 
     def model_constants(self, tier):
-        return {"Rows": rows_for(tier), "Vias": frozenset({"callback", "handshake"})}
+        return {"Rows": rows_for(tier), "Vias": frozenset({"callback", "handshake"}),
+                "LegacyOverride": False, "LegacyMirror": False}
 
     def scenarios(self, ctx, models):
         g = models[0].graph
@@ -235,7 +236,7 @@ class Check(core.PropertyCheck):
         behs = g.all_paths(4)
         rng = random.Random(ctx.seed + 18)
         rng.shuffle(behs)
-        hs_budget = 600 if ctx.quick else 10 ** 9
+        hs_budget = 350 if ctx.quick else 10 ** 9
         for b in behs:
             if len(b) != 4:
                 continue
@@ -255,7 +256,7 @@ class Check(core.PropertyCheck):
         # beyond the model's bounds: longer offer lists, repeated entries, arbitrary byte strings
         rng = random.Random(ctx.seed + 1818)
         alphabet = [p for p in HTTP_IDS] + list(UNKNOWN_ASCII)
-        for i in range(300 if ctx.quick else 6000):
+        for i in range(200 if ctx.quick else 6000):
             via = rng.choice(["callback", "callback", "handshake"])
             mode = rng.choice(MODES_INNER + MODES_OUTER)
             pool = alphabet + ([] if via == "handshake" else list(UNKNOWN_BYTES))
